@@ -427,8 +427,19 @@ def handle (line : String) : String :=
           let starts ← (← arr (← j.getObjVal? "starts")).toList.mapM nat'
           let fuel ← nat' (← j.getObjVal? "fuel")
           let cj (c : Rec.Cache) : Json := Json.arr (c.map (fun p => Json.arr #[(p.1 : Nat), Json.bool p.2])).toArray
+          -- the consumer: after each call of the history, is the method of that type compiled within the bound (2 |g| + 10 nested visits)?
+          let comp ← match j.getObjVal? "compile" with
+            | .ok (Json.bool true) => pure true
+            | _ => pure false
+          let compiled (st : Rec.Graph → Rec.Cache → Rec.Local → Rec.Cache × Rec.Local) : Json :=
+            if comp then
+              Json.arr ((starts.foldl (fun (acc : Rec.Cache × List Json) n =>
+                let c' := Rec.analyseSeq st g fuel acc.1 n
+                (c', acc.2 ++ [Json.bool (Rec.compileDepth g c' (2 * g.length + 10) [] n).isSome])) ([], [])).2).toArray
+            else Json.null
           pure (Json.mkObj [("id", id), ("fixed", cj (Rec.history Rec.step g fuel starts)),
                             ("early", cj (Rec.history Rec.stepEarly g fuel starts)),
+                            ("compiled_fixed", compiled Rec.step), ("compiled_early", compiled Rec.stepEarly),
                             ("on_cycle", Json.arr (((g.map (·.1)).filter (Rec.onCycleB g)).map (fun (n : Nat) => (n : Json))).toArray)])
       | op => throw s!"unknown op {op}"
     match r with
